@@ -189,9 +189,10 @@ func init() {
 }
 
 var (
-	aborted     bool // the reference counting protocol was violated: the pools cannot be trusted any more
-	leaked      bool // a scenario missed its deadline: goroutines of it may still run
-	traceStats  struct{ traces, events, buffers, rejected, oracle int }
+	aborted     bool                // the reference counting protocol was violated: the pools cannot be trusted any more
+	leaked      bool                // a scenario missed its deadline: goroutines of it may still run
+	missed      = map[string]bool{} // scenarios that missed their deadline once are not run again
+	traceStats  struct{ traces, events, buffers, rejected, oracle, longest int }
 	isRaceChild = os.Getenv("VERIF_C15_RACE") != ""
 )
 
@@ -226,6 +227,10 @@ func runInst(c *core.Ctx, in inst) {
 	key, _ := json.Marshal(in)
 
 	if aborted {
+		return
+	}
+	if missed[in.Scenario] {
+		c.Note("%s skipped: the scenario missed its deadline before", bucket)
 		return
 	}
 	old := runtime.GOMAXPROCS(in.P)
@@ -269,6 +274,7 @@ func runInst(c *core.Ctx, in inst) {
 			buf = buf[:8<<10]
 		}
 		leaked = true
+		missed[in.Scenario] = true
 		c.Violation("deadlock", fmt.Sprintf("scenario %s with GOMAXPROCS=%d did not finish within %v", in.Scenario, in.P, deadline), replayOf(in, string(buf)))
 	}
 	if in.Traced {
@@ -423,6 +429,9 @@ func validateTrace(c *core.Ctx, in inst, rec *recorder) (rejected bool) {
 	traceStats.traces++
 	traceStats.events += len(ev)
 	traceStats.buffers += len(num)
+	if len(ev) > traceStats.longest {
+		traceStats.longest = len(ev)
+	}
 	implLine := fmt.Sprintf("ok %d %d", len(ev), nbuf)
 	if idx >= 0 {
 		traceStats.rejected++
@@ -2658,7 +2667,7 @@ func run(c *core.Ctx) {
 				}
 			}
 		}
-		c.Note("traces_validated_against_impl: %d traces, %d events, %d buffers, %d rejected", traceStats.traces, traceStats.events, traceStats.buffers, traceStats.rejected)
+		c.Note("traces_validated_against_impl: %d traces, %d events, %d buffers, %d rejected (longest trace %d events)", traceStats.traces, traceStats.events, traceStats.buffers, traceStats.rejected, traceStats.longest)
 		if c.HasOracle() {
 			c.Note("traces_validated_against_model: %d oracle requests (whole traces and per-buffer projections)", traceStats.oracle)
 		}
